@@ -390,6 +390,14 @@ typedef struct sf_private_tag
 
 	int				error ;
 
+	/*
+	** Set by psf_fseek() when the seek failed, together with the position it
+	** was asked for (-1 if unknown). psf_fwrite() will not write while the
+	** file pointer is somewhere else.
+	*/
+	int				seek_failed ;
+	sf_count_t		seek_failed_target ;
+
 	int				endian ;		/* File endianness : SF_ENDIAN_LITTLE or SF_ENDIAN_BIG. */
 	int				data_endswap ;	/* Need to endswap data? */
 
